@@ -9,6 +9,7 @@ import (
 	"crypto/rand"
 	"fmt"
 	"math/big"
+	"os"
 	"strings"
 	"testing"
 
@@ -499,7 +500,7 @@ func opPoint(rt *rapid.T, label string, onlyValid bool) func(m protoreflect.Mess
 				nx, ny = p[1:1+size], p[1+size:]
 			case "negated":
 				yy := new(big.Int).Sub(el.Params().P, new(big.Int).SetBytes(y))
-				ny = yy.FillBytes(make([]byte, size))
+				ny = yy.Mod(yy, el.Params().P).FillBytes(make([]byte, size))
 			case "noncanonical":
 				yy := new(big.Int).Add(el.Params().P, new(big.Int).SetBytes(y))
 				ny = yy.Bytes()
@@ -578,7 +579,7 @@ func opPoint(rt *rapid.T, label string, onlyValid bool) func(m protoreflect.Mess
 				np = freshPoint(ec)
 			case "negated":
 				yy := new(big.Int).Sub(el.Params().P, new(big.Int).SetBytes(p[1+size:]))
-				copy(np[1+size:], yy.FillBytes(make([]byte, size)))
+				copy(np[1+size:], yy.Mod(yy, el.Params().P).FillBytes(make([]byte, size)))
 			}
 		case len(p) == mlkem.EncapsulationKeySize768 || len(p) == mlkem.EncapsulationKeySize1024 || len(p) == mlkem.EncapsulationKeySize768+32:
 			kind = "fresh-valid"
@@ -989,6 +990,9 @@ func TestStructuredMutation(t *testing.T) {
 		kind := "none"
 		if len(kinds) > 0 {
 			kind = kinds[len(kinds)-1]
+		}
+		if tr := os.Getenv("C14_TRACE"); tr != "" && strings.Contains(strings.Join(kinds, ","), tr) && strings.HasPrefix(outcome, "accepted") {
+			fmt.Printf("TRACE %s: %s\n%s\n", outcome, e.what, ksText(ks))
 		}
 		evid.Add("outcome_"+outcome, 1)
 		for _, k := range kinds {
